@@ -24,7 +24,7 @@ extern "C" int __lsan_do_recoverable_leak_check();
 using namespace vh;
 
 namespace {
-struct Tally { long long tall_tables = 0, tallest_table = 0, decomposed_parts = 0, extension_sets = 0, refused = 0, mirror_requests = 0, unit_names_read = 0, exact_fills = 0, threshold = 0, factory_calls = 0, strings = 0, string_bytes = 0, pools = 0, printed_bytes = 0, units = 0, regions = 0, steps = 0, substitution_queries = 0; };
+struct Tally { long long tall_tables = 0, tallest_table = 0, decomposed_parts = 0, extension_sets = 0, refused = 0, mirror_requests = 0, unit_names_read = 0, exact_fills = 0, threshold = 0, factory_calls = 0, strings = 0, string_bytes = 0, pools = 0, printed_bytes = 0, units = 0, regions = 0, steps = 0, substitution_queries = 0, deep_nests = 0, deep_nests_beyond_80_columns = 0; };
 
 // the workload of one Lexicon life; everything it allocates dies with this scope
 // the Lexicon of every ordinary life is built in this one storage slot (the address a constructor may have remembered)
@@ -65,6 +65,21 @@ void one_life(std::uint64_t seed, int flavour, Tally& T)
          for (auto& d : unit.global_namespace().scope().elements()) { Printer pp(L, os); pp.print_locations = loc; try { pp << xpr_decl(d, true); } catch (const std::logic_error&) { } }
          Printer pp(L, os); try { pp << unit; } catch (const std::logic_error&) { }
       }
+   }
+   {  // statements nested 20..75 blocks deep (indentation far beyond one line's worth of columns), printed as a statement, inside a
+      // function body and inside nested namespaces; what the printer reads to indent must be live storage at any depth
+      const int depth = 20 + (flavour * 7 + ctx().worker) % 56;
+      impl::Block* outer = lex.make_block(*unit.global_region()); impl::Block* cur = outer;
+      for (int d = 0; d < depth; ++d) { auto* in = lex.make_block(cur->lexical_region); in->add_stmt(*lex.make_expr_stmt(*lex.make_literal(L.int_type(), widen(std::to_string(d))))); cur->add_stmt(*in); cur = in; }
+      impl::Namespace* nsp = nullptr; impl::Region* reg = unit.global_region();
+      for (int d = 0; d < depth / 2; ++d) { nsp = lex.make_namespace(*reg); nsp->id = &lex.get_identifier(widen("deep" + std::to_string(d))); auto* td = reg->declare_alias(lex.get_identifier(widen("deep" + std::to_string(d))), *nsp); (void)td; reg = &nsp->body; }
+      reg->declare_var(lex.get_identifier(u8"innermost"), L.int_type());
+      for (int loc = 0; loc < 2; ++loc) {
+         Printer pp(L, os); pp.print_locations = loc;
+         try { pp << xpr_stmt(*outer); } catch (const std::logic_error&) { }
+         try { pp << unit; } catch (const std::logic_error&) { }
+      }
+      ++T.deep_nests; if (depth >= 27) ++T.deep_nests_beyond_80_columns;
    }
    {  // substitutions of every size from 0 to 33 bindings (every capacity boundary of a small flat container on the way), bound in
       // ascending, descending or random parameter order, and applied after every binding to every parameter of the pool: the bound
@@ -351,9 +366,9 @@ static void body(Ctx& C)
       if (C.total_viols >= 12 && i >= 3) { C.count("stopped_early_after_repeated_violations"); break; }
    }
    C.count("factory_calls", T.factory_calls); C.count("strings_interned", T.strings); C.count("string_bytes", T.string_bytes); C.count("string_pools_at_destruction", T.pools);
-   C.count("printed_bytes", T.printed_bytes); C.count("extra_units_and_module_units", T.units); C.count("nested_regions", T.regions); C.count("program_steps", T.steps); C.count("strings_at_allocator_threshold_lengths", T.threshold); C.count("lives_filling_string_pools_exactly", T.exact_fills); C.count("unit_names_read", T.unit_names_read); C.count("mirror_requests_at_both_ends_of_a_life", T.mirror_requests); C.count("requests_refused_during_a_life", T.refused); C.count("lives_with_one_very_large_table", T.tall_tables); C.maxi("largest_single_table_destroyed", T.tallest_table); C.count("specifier_and_qualifier_sets_with_extension_coordinates_decomposed_or_printed", T.extension_sets); C.count("names_obtained_by_decomposition", T.decomposed_parts); C.count("substitutions_of_every_size_applied_to_bound_and_unbound_parameters", T.substitution_queries);
+   C.count("printed_bytes", T.printed_bytes); C.count("extra_units_and_module_units", T.units); C.count("nested_regions", T.regions); C.count("program_steps", T.steps); C.count("strings_at_allocator_threshold_lengths", T.threshold); C.count("lives_filling_string_pools_exactly", T.exact_fills); C.count("unit_names_read", T.unit_names_read); C.count("mirror_requests_at_both_ends_of_a_life", T.mirror_requests); C.count("requests_refused_during_a_life", T.refused); C.count("lives_with_one_very_large_table", T.tall_tables); C.maxi("largest_single_table_destroyed", T.tallest_table); C.count("specifier_and_qualifier_sets_with_extension_coordinates_decomposed_or_printed", T.extension_sets); C.count("names_obtained_by_decomposition", T.decomposed_parts); C.count("substitutions_of_every_size_applied_to_bound_and_unbound_parameters", T.substitution_queries); C.count("deeply_nested_items_printed", T.deep_nests); C.count("items_printed_with_indentation_beyond_80_columns", T.deep_nests_beyond_80_columns);
    for (auto k : { "lexicon_lives", "factory_calls", "strings_interned", "string_pools_at_destruction", "printed_bytes", "extra_units_and_module_units", "nested_regions", "program_steps" }) C.need(k);
-   C.need("overlapping_lexicon_pairs"); C.need("substitutions_of_every_size_applied_to_bound_and_unbound_parameters"); C.need("lives_filling_string_pools_exactly"); C.need("unit_names_read"); C.need("mirror_requests_at_both_ends_of_a_life"); C.need("requests_refused_during_a_life"); C.need("lives_with_one_very_large_table"); C.need("specifier_and_qualifier_sets_with_extension_coordinates_decomposed_or_printed");
+   C.need("overlapping_lexicon_pairs"); C.need("items_printed_with_indentation_beyond_80_columns"); C.need("substitutions_of_every_size_applied_to_bound_and_unbound_parameters"); C.need("lives_filling_string_pools_exactly"); C.need("unit_names_read"); C.need("mirror_requests_at_both_ends_of_a_life"); C.need("requests_refused_during_a_life"); C.need("lives_with_one_very_large_table"); C.need("specifier_and_qualifier_sets_with_extension_coordinates_decomposed_or_printed");
    if (!valgrind_mode) { C.need("byte_accounting_checks"); C.need("lsan_checks"); }
 }
 
